@@ -16,6 +16,7 @@ func factsC13More(r *Repo) []Fact {
 	out = append(out, c13LoopReportsCtxErr(r))
 	out = append(out, c13ForwarderRecovers(r, "convForwarderRecovers", "streamReaderWithConvert"))
 	out = append(out, c13ForwarderRecovers(r, "childForwarderRecovers", "childStreamReader"))
+	out = append(out, c13ErrorTextMemoised(r))
 	return out
 }
 
@@ -192,4 +193,110 @@ func c13CallsRecoverItself(body *ast.BlockStmt) bool {
 		return !found
 	})
 	return found
+}
+
+// errorTextMemoised: false iff the text of compose.internalError is a function of its current
+// fields: (1) the struct has no field of a sync / atomic type and no field other than the four
+// the wrap functions maintain (typ, streamWrapperPath, nodePath, origError); (2) Error(), and every
+// method of internalError it calls on its receiver (transitively), assigns to nothing reachable
+// from the receiver, contains no function literal, no go / defer statement and no call of a method
+// named Do / Load / Store / LoadOrStore on something reachable from the receiver.  The wrap functions
+// prepend node keys to the SAME object level after level, so a memoised text goes stale as soon as
+// somebody read it at an inner level.
+func c13ErrorTextMemoised(r *Repo) Fact {
+	cp := r.Pkg("compose")
+	fd, file := cp.Func("internalError", "Error")
+	if fd == nil || fd.Body == nil {
+		return unknownFact("errorTextMemoised", "Bool", "true", "compose", "method Error of internalError not found")
+	}
+	var st *ast.StructType
+	for _, n := range cp.Names {
+		for _, d := range cp.Files[n].Decls {
+			gd, ok := d.(*ast.GenDecl)
+			if !ok {
+				continue
+			}
+			for _, sp := range gd.Specs {
+				if ts, ok := sp.(*ast.TypeSpec); ok && ts.Name.Name == "internalError" {
+					st, _ = ts.Type.(*ast.StructType)
+				}
+			}
+		}
+	}
+	if st == nil {
+		return unknownFact("errorTextMemoised", "Bool", "true", "compose", "struct type internalError not found")
+	}
+	why := ""
+	note := func(s string) {
+		if why == "" {
+			why = s
+		}
+	}
+	known := map[string]bool{"typ": true, "streamWrapperPath": true, "nodePath": true, "origError": true}
+	for _, f := range st.Fields.List {
+		ty := exprString(f.Type)
+		if strings.Contains(ty, "sync.") || strings.Contains(ty, "atomic.") {
+			note("field of type " + ty)
+		}
+		if len(f.Names) == 0 {
+			note("embedded field " + ty)
+		}
+		for _, n := range f.Names {
+			if !known[n.Name] {
+				note("extra field " + n.Name)
+			}
+		}
+	}
+	seen := map[string]bool{}
+	var visit func(m *ast.FuncDecl)
+	visit = func(m *ast.FuncDecl) {
+		if m == nil || m.Body == nil || seen[m.Name.Name] {
+			return
+		}
+		seen[m.Name.Name] = true
+		recv := ""
+		if m.Recv != nil && len(m.Recv.List) > 0 && len(m.Recv.List[0].Names) > 0 {
+			recv = m.Recv.List[0].Names[0].Name
+		}
+		rooted := func(e ast.Expr) bool {
+			t := exprString(e)
+			return recv != "" && (t == recv || strings.HasPrefix(t, recv+".") || strings.HasPrefix(t, "*"+recv))
+		}
+		ast.Inspect(m.Body, func(n ast.Node) bool {
+			switch v := n.(type) {
+			case *ast.AssignStmt:
+				for _, l := range v.Lhs {
+					if rooted(l) {
+						note(m.Name.Name + " assigns to " + exprString(l))
+					}
+				}
+			case *ast.IncDecStmt:
+				if rooted(v.X) {
+					note(m.Name.Name + " modifies " + exprString(v.X))
+				}
+			case *ast.FuncLit:
+				note(m.Name.Name + " contains a function literal")
+			case *ast.GoStmt, *ast.DeferStmt:
+				note(m.Name.Name + " contains go/defer")
+			case *ast.CallExpr:
+				if se, ok := v.Fun.(*ast.SelectorExpr); ok && rooted(se.X) {
+					switch se.Sel.Name {
+					case "Do", "Load", "Store", "LoadOrStore", "Swap", "CompareAndSwap":
+						note(m.Name.Name + " calls " + exprString(v.Fun))
+					}
+					if exprString(se.X) == recv { // a method of internalError on the same receiver
+						next, _ := cp.Func("internalError", se.Sel.Name)
+						visit(next)
+					}
+				}
+			}
+			return true
+		})
+	}
+	visit(fd)
+	where := "compose/" + file + ": internalError has only the fields typ/streamWrapperPath/nodePath/origError and Error() (with the receiver methods it calls) writes nothing: the text is rendered from the current fields on every call"
+	if why != "" {
+		where += " (found: " + why + ")"
+	}
+	return boolFact("errorTextMemoised", why != "", where)
 }
